@@ -230,6 +230,11 @@ pub struct Stats {
     pub locals_while_linked: u64,
     /// (counter name, occurrences): shapes of take/drop callbacks and the like.
     pub observations: Vec<String>,
+    /// Notifications walked that repeat what the link already said (the state does not change):
+    /// update with the value the entry holds, value event with the current value, echo of the local
+    /// write just issued, remove of an absent key, clear of an empty map, take/drop that keeps
+    /// everything - each split by whether its callbacks were due (`dispatched`) or suppressed.
+    pub no_change: Vec<(&'static str, bool)>,
 }
 
 /// How a dispatched take/drop was reported.
@@ -347,6 +352,8 @@ fn walk(inp: &CheckInput<'_>, stats: &mut Stats, include_local: bool) -> Option<
     let mut terminated = false;
     let mut fold = Fold::default();
     let mut cursor = 0usize;
+    // The local write issued since the last notification (to recognise the lane's echo of it).
+    let mut last_local: Option<LocalOp> = None;
 
     enum Op<'a> {
         L(&'a LocalOp),
@@ -383,6 +390,7 @@ fn walk(inp: &CheckInput<'_>, stats: &mut Stats, include_local: bool) -> Option<
         for op in ops {
             let note = match op {
                 Op::L(l) => {
+                    last_local = Some(l.clone());
                     if link != Link::Unlinked && !terminated {
                         stats.locals_while_linked += 1;
                         if include_local {
@@ -407,6 +415,7 @@ fn walk(inp: &CheckInput<'_>, stats: &mut Stats, include_local: bool) -> Option<
                 }
                 Op::N(n) => n,
             };
+            let echoed = last_local.take();
             if terminated {
                 stats.frames_after_terminate += 1;
                 continue;
@@ -454,6 +463,29 @@ fn walk(inp: &CheckInput<'_>, stats: &mut Stats, include_local: bool) -> Option<
                         let dispatch = link == Link::Synced || flags.events_when_not_synced || mode == Mode::EventDl;
                         if !dispatch {
                             stats.suppressed_events += 1;
+                        }
+                        // Notifications that leave the state as it is. They are notifications like
+                        // any other: the statement lists the callback of each (old == new is a
+                        // legitimate pair), except where there is nothing to report (absent key).
+                        let is_echo = match (&echoed, ev) {
+                            (Some(LocalOp::SetV(a)), Note::Set(b)) => a == b,
+                            (Some(LocalOp::Upd(k1, a)), Note::Upd(k2, b)) => k1 == k2 && a == b,
+                            (Some(LocalOp::Rem(k1)), Note::Rem(k2)) => k1 == k2,
+                            (Some(LocalOp::Clr), Note::Clr) => true,
+                            _ => false,
+                        };
+                        if is_echo {
+                            stats.no_change.push(("echo-of-local-write", dispatch));
+                        }
+                        let same = match ev {
+                            Note::Set(v) if fold.val == Some(*v) => Some("value-event-with-current-value"),
+                            Note::Upd(k, v) if fold.map.get(k) == Some(v) => Some("update-with-value-held"),
+                            Note::Rem(k) if !fold.map.contains_key(k) => Some("remove-of-absent-key"),
+                            Note::Clr if fold.map.is_empty() => Some("clear-of-empty-map"),
+                            _ => None,
+                        };
+                        if let Some(name) = same {
+                            stats.no_change.push((name, dispatch));
                         }
                         if ev.is_take_drop() {
                             let before = fold.map.clone();
